@@ -903,6 +903,9 @@ func (lcp *LCPStateMachine) initializeRestartCount() {
 
 func (lcp *LCPStateMachine) zeroRestartCount() {
 	lcp.restartCount = 0
+	// RFC 1661 zrc: wait one timeout period before proceeding to the final
+	// state; without a running timer the automaton would stay in Stopping
+	lcp.startTimer()
 }
 
 func (lcp *LCPStateMachine) startTimer() {
